@@ -41,6 +41,8 @@ def fmc_probe(v):
         return np.full(N, -1.0)
     if isinstance(v, type) or callable(v):
         return np.full(N, MARK["builtin"])
+    if isinstance(v, str):  # (a name must never arrive as text)
+        return np.full(N, -77.0)
     return np.full(N, float(v))
 
 
